@@ -387,6 +387,8 @@ def gen_tla(path):
     A("DeclBdataOK == " + tla_set(ids(DECL, lambda v: v["bdata"])))
     A("DeclOne == " + tla_set(ids(DECL, lambda v: v["one"])))
     A("UseAll == " + tla_set(ids(USE)))
+    A("UseOne == " + tla_set(ids(USE, lambda v: v["one"])))
+    A("FormatOne == " + tla_set(ids(FORMAT, lambda v: v["one"])))
     A("FormatAll == " + tla_set(ids(FORMAT)))
     A("Format08 == " + tla_set(ids(FORMAT, lambda v: v["std"] == 8)))
     A("CompAll == " + tla_set(ids(COMP)))
